@@ -90,7 +90,10 @@ int RandomRange(int min, int max)
 
 int RandomRangeNonUniform(int x, int min, int max)
 {
-	return (((RandomRange(0, x) | RandomRange(min, max))) % (max - min + 1)) + min;
+	int r = ((RandomRange(0, x) | RandomRange(min, max))) % (max - min + 1);
+	if(r < 0) // the bitwise or is negative when min is: % then yields a value in (-(max - min + 1), 0]
+		r += max - min + 1;
+	return r + min;
 }
 
 /**
